@@ -33,6 +33,7 @@ fn main() {
         "bits" => misc::bits(n),
         "zob" => misc::zob(n),
         "crowded" => misc::crowded(n),
+        "miri" => misc::miri_cases(),
         _ => { eprintln!("unknown command {}", cmd); std::process::exit(2); }
     }
 }
